@@ -6,4 +6,6 @@ import (
 	_ "verif/harness/c02"
 	_ "verif/harness/c03"
 	_ "verif/harness/c06"
+	_ "verif/harness/c08"
+	_ "verif/harness/c17"
 )
